@@ -1,5 +1,5 @@
 """C17 — assembly paths, schedules, cache (DESIGN 4.C17)."""
-from vlib.core import Check
+from vlib.core import Check, guarded
 from pyvc.driver import verify_contracts, ENGINE_ASSUMPTIONS
 from pyvc import arrays, extio
 from contracts import common, assembly
@@ -27,5 +27,5 @@ def run(tier, seed):
     from vlib import smt
     smt.close_pool()
     from bounded import cache_faults
-    cache_faults.run(chk, tier, seed)
+    guarded(chk, 'bounded part cache_faults.run', cache_faults.run, chk, tier, seed)
     return chk.finish()
